@@ -624,3 +624,102 @@ def C12(run):
         ["MC_Items (arr, map, chunk families) checks SizeWithinCap, refusal at capacity, out-of-range refusal and logarithmic growth exhaustively on the small pool",
          "in conformance the capacity after a growth step is read from the real container: any growth that keeps size <= capacity, never shrinks and stays within the reallocation bound is accepted",
          "out-of-bounds accesses are observed by ASan"])
+
+
+# ---------------------------------------------------------------------------------------------- C13 / C06
+ALLOC_SRC = ["vh.c", "h_tree.c", "h_gen.c", "h_alloc.c"]
+WRAP = ["-DVH_WRAP", "-Wl,--wrap=malloc,--wrap=calloc,--wrap=realloc,--wrap=free"]
+
+
+def C13(run):
+    q = run.quick()
+    mc = tlc_mc(run, "MC_AllocFault", workers=NCPU)
+    lib = build_lib(run, "dbg")
+    exe = build_harness(run, lib, "h_alloc", ALLOC_SRC, extra=WRAP)
+    out = run.path("alloc.ndjson")
+    open(out, "w").close()
+    nrun = 0
+    for mode in ("c13", "c13arena"):
+        part = run.path("alloc-%s.ndjson" % mode)
+        _record_simple(run, exe, [mode, "600" if q else "15000"], part, "allocator workload (%s)" % mode)
+        with open(out, "ab") as fo, open(part, "rb") as fi:
+            fo.write(fi.read())
+    # the ownership histories of C04 under the same allocator: foreign / repeated frees and leaks are judged there as well
+    exe2 = build_harness(run, lib, "h_items_w", ITEMS_SRC, extra=WRAP)
+    hist = run.path("items.ndjson")
+    _record_simple(run, exe2, ["hist", "200" if q else "5000", "50", "inrange"], hist, "API histories under the instrumenting allocator")
+    bad_end = [l for l in open(hist) if l.startswith('{"e":"end"') and ('"live":0,' not in l or '"foreign":0' not in l)]
+    for l in bad_end[:3]:
+        report_violation(run, "history-end " + l.strip()[:80], "API history left blocks live or released a foreign/stale pointer: " + l.strip(), {"line": l.strip()})
+    n = count_lines(out)
+    res = tracecheck(run, "Trace_Alloc", out, boundary=b'{"e":"quiet"')
+    def sig(ln, r):
+        return "alloc op=%s pure=%s bypass=%s events=%s" % (ln.get("name"), ln.get("pure"), ln.get("bypass"), "".join(e["op"] for e in ln.get("ev", []))[:60])
+    _report_rejects(run, res, "allocator discipline", sig)
+    ops, kinds, events = 0, set(), 0
+    with open(out) as f:
+        for l in f:
+            if l.startswith('{"e":"op"'):
+                ops += 1
+                d = json.loads(l)
+                events += len(d["ev"])
+                kinds.add((d["name"], "".join(e["op"] for e in d["ev"])[:40]))
+    write_evidence(run, "model_checking", {
+        "states": mc["distinct"], "transitions": mc["generated"], "traces_validated_against_impl": ops - len(res["rejects"]),
+        "samples": _sample_lines(out, 1, lambda l: '"name":"copy"' in l and '"R"' in l) + _sample_lines(out, 1, lambda l: '"pure":true' in l),
+        "evaluations": ops, "distinct_nontrivial": len(kinds), "allocator_events": events, "histories_under_instrumenting_allocator": count_lines(hist),
+        "rule": "one case = one library operation bracketed in the allocator log (load of seeded random encodings and their corruptions/truncations, describe, serialized_size, serialize, serialize_alloc + client free, copy, release, every cbor_stream_decode call, encoders, construction API); configurations: registry allocator that always moves on realloc (stale pointers poisoned under ASan) with link-time interposition of malloc/calloc/realloc/free to catch direct libc calls, and an mmap arena with no libc backing; distinct = (operation, event pattern)",
+        "trace_lines_validated_by_TLC": res["lines"], "exhaustive": False},
+        ["the live-block set is computed by TLC from the logged events (CborAllocEvents), not taken from harness counters",
+         "a direct libc allocator call during a library operation is observed by -Wl,--wrap interposition; with the arena a stray libc free/realloc aborts",
+         "allocators are installed with cbor_set_allocs before any item exists"])
+
+
+def C06(run):
+    q = run.quick()
+    mc = tlc_mc(run, "MC_AllocFault", workers=NCPU)
+    lib = build_lib(run, "dbg")
+    exe = build_harness(run, lib, "h_alloc", ALLOC_SRC, extra=WRAP)
+    out = run.path("fault.ndjson")
+    open(out, "w").close()
+    skip, crashes = -1, 0
+    while True:
+        part = run.path("fault-part.ndjson")
+        args = ["c06", "60" if q else "1500"] + (["--skip", str(skip)] if skip >= 0 else [])
+        rc, err = run_harness(run, exe, args, part, timeout=3000)
+        data = open(part, "rb").read()
+        if rc != 0:
+            k = data.rfind(b"\n")
+            data = data[:k + 1] if k >= 0 else b""
+        with open(out, "ab") as fo:
+            fo.write(data)
+        if rc == 0:
+            break
+        m = re.findall(r"CURRENT-CASE (\w+) idx=(\d+) (.*)", err)
+        if not m:
+            raise Infra("h_alloc c06 failed: " + err[-1500:])
+        why, idx, desc = m[-1]
+        report_violation(run, "fault-crash " + desc, "operation crashed (%s) under an allocation fault: %s\n%s" % (why, desc, err[-1200:]), {"case": desc, "stderr": err[-3000:]})
+        crashes += 1
+        skip = int(idx)
+        if crashes >= 4:
+            break
+    n = count_lines(out)
+    res = tracecheck(run, "Trace_Alloc", out, boundary=None)
+    _report_rejects(run, res, "allocation failure", lambda ln, r: "fault sc=%s variant=%s k=%s mode=%s in=%s" % (ln.get("sc"), ln.get("variant"), ln.get("k"), ln.get("mode"), ln.get("in", "")))
+    kinds, scen = set(), set()
+    with open(out) as f:
+        for l in f:
+            m = re.search(r'"sc":"(\w+)","variant":(\d+),"k":(\d+),"mode":"(\w+)","n":(\d+)', l)
+            if m:
+                kinds.add(m.groups())
+                scen.add((m.group(1), m.group(2), m.group(5)))
+    write_evidence(run, "fault_enumeration" if False else "model_checking", {
+        "states": mc["distinct"], "transitions": mc["generated"], "traces_validated_against_impl": n - len(res["rejects"]),
+        "samples": _sample_lines(out, 1, lambda l: '"sc":"copy"' in l and '"k":2' in l) + _sample_lines(out, 1, lambda l: '"sc":"push"' in l),
+        "evaluations": n, "distinct_nontrivial": len(kinds), "scenarios": len(scen),
+        "rule": "one case = (scenario, k, schedule): scenarios = cbor_load of each corpus input (38 fixed + seeded random well-formed), cbor_copy and cbor_serialize_alloc of each corpus tree and of API-built trees with shared sub-items, 25 builders, push / array_set / map_add / add_chunk at container sizes 0,1,2,3,4,7,8,16, build_tag; for each the N allocator requests of a fault-free run are counted, then request k = 0..N-1 is refused alone and refused together with all later ones; exhaustive per scenario",
+        "trace_lines_validated_by_TLC": res["lines"], "exhaustive": True, "crashes": crashes},
+        ["MC_AllocFault checks the transaction pattern (serve or refuse, unwind, report) for every operation length, request index and schedule",
+         "per case TLC folds the logged allocator events: a failed operation may release or move only blocks it obtained itself and must hold none at the end; arguments are compared as logged trees with reference counts",
+         "crashes are observed by ASan/UBSan and reported with the scenario"])
